@@ -40,6 +40,9 @@ case "$fault" in
   stderr) echo "$cmd: error: simulated failure" >&2; echo rejected > "$c.res"; exit 0;;
   garbage) echo "Unable to contact controller"; echo rejected > "$c.res"; exit 0;;
   killparent) echo rejected > "$c.res"; kill -9 $PPID; exit 1;;
+  depfail) # Slurm refuses a submission whose afterok list names a job it has no record of any more
+    case " $* " in *--dependency=*) echo "sbatch: error: Batch job submission failed: Job dependency problem" >&2; echo rejected > "$c.res"; exit 1;; esac
+    echo "$cmd: simulated failure" >&2; echo rejected > "$c.res"; exit 1;;
 esac
 case "$cmd" in
   sbatch|qsub|bsub)
@@ -58,6 +61,10 @@ case "$cmd" in
   bjobs) for a in "$@"; do id="$a"; done
          awk -v id="$id" '$1==id {print $2}' "$ctl/bjobs.tbl";;
   scancel|qdel|bkill) for a in "$@"; do id="$a"; done
+         if [ -f "$ctl/refuse_silent" ] && grep -qx "$id" "$ctl/refuse_silent"; then
+           # (SGE's qdel reports on stdout: non-zero exit, nothing on stderr)
+           echo rejected > "$c.res"; echo "denied: job \"$id\" does not exist"; exit 1
+         fi
          if [ -f "$ctl/refuse" ] && grep -qx "$id" "$ctl/refuse"; then
            echo rejected > "$c.res"
            if [ "$cmd" = "scancel" ]; then echo "scancel: error: Kill job error on job id $id: Invalid job id specified" >&2; exit 0; fi
@@ -198,8 +205,9 @@ class Sandbox:
             except FileNotFoundError:
                 pass
 
-    def set_refuse(self, ids):
-        self._w("refuse", "".join("%s\n" % i for i in ids))
+    def set_refuse(self, ids, silent=False):
+        self._w("refuse_silent" if silent else "refuse", "".join("%s\n" % i for i in ids))
+        self._w("refuse" if silent else "refuse_silent", "")
 
     def clear_fault(self):
         try:
